@@ -802,11 +802,6 @@ var classifiers = []vrt.Classifier{
 	{ID: "C13-K1", Match: func(d vrt.Disc, c *vrt.Ctx) bool {
 		return has(d, "has:slice") && has(d, "explained-by-mutation-slice-reading")
 	}},
-	// C13-K2: Modify and Remove evaluate $ inside a filter against the element (or nil) instead
-	// of the root of the data, so a filter that refers to $ selects other locations than Get.
-	{ID: "C13-K2", Match: func(d vrt.Disc, c *vrt.Ctx) bool {
-		return has(d, "filter-uses-root") && (strings.HasPrefix(d.Where, "jp.modify") || strings.HasPrefix(d.Where, "jp.remove"))
-	}},
 	// C13-K4: Set of a container value through a descent can fail to return: the value is
 	// inserted by reference and then descended into ($....a with a map receives itself as member
 	// "a"; $....* with [1] nests forever). The harness does not execute Set with a descent and a
@@ -815,17 +810,9 @@ var classifiers = []vrt.Classifier{
 	// C13-K5: Set returns nil without doing anything when a child step meets an array or scalar
 	// (or an index step meets a map) on simple data, instead of reporting the impossible request.
 	{ID: "C13-K5", Match: func(d vrt.Disc, c *vrt.Ctx) bool { return d.Kind == "set-silent-noop" }},
-	// C13-K6: on gen data Set/Del (and One forms) report "can not follow ..." errors for
-	// situations that are silently skipped on simple data, so error-ness differs between the two.
-	{ID: "C13-K6", Match: func(d vrt.Disc, c *vrt.Ctx) bool {
-		return d.Kind == "gen-error-differs" && strings.Contains(d.Detail, "simple err=<nil> gen err=can not ")
-	}},
-	// C13-K7: through a descent followed by a filter the mutation operations change locations
-	// that Get does not select (Del $..[?(@.x.b == @[-2].*)].* also nulls scalar members that the
-	// filter matched but whose wildcard selects nothing).
+	// C13-K7: the mutation operations change the data while they are still selecting, so a
+	// filter evaluated for a node that a descent reaches later sees what was already changed
+	// (Del $..[?(@.x.b == @[-2].*)].* on {a:[0 {a:2} 0]} first deletes a[1].a, after which the
+	// filter matches a itself and all three elements are nulled, where Get selects a[1].a only).
 	{ID: "C13-K7", Match: func(d vrt.Disc, c *vrt.Ctx) bool { return has(d, "has:descent") && has(d, "has:filter") }},
-	// C13-K3: a *One form can return without changing anything although the path selects a
-	// location (it stops at the first candidate it visits, e.g. the first union member or the
-	// first node of a descent, even when that one does not match).
-	{ID: "C13-K3", Match: func(d vrt.Disc, c *vrt.Ctx) bool { return d.Kind == "one-changed-none" }},
 }
